@@ -557,6 +557,21 @@ func writeEvidence(id, tier string, seed int, prog *Program, results []*HarnessR
 				samples = append(samples, s)
 			}
 		}
+		nw := 0
+		for _, wt := range r.Witnesses {
+			if wt == nil || nw >= 3 {
+				continue
+			}
+			nw++
+			model := map[string]string{}
+			for k, v := range wt.Model {
+				if len(v) > 48 {
+					v = v[:48] + "…"
+				}
+				model[k] = v
+			}
+			samples = append(samples, map[string]interface{}{"harness": wt.Harness, "kind": "path witness: a model of one explored path condition, re-run natively", "inputs": model, "engine_observed": wt.Observed, "native_result": wt.Result})
+		}
 		notes = append(notes, r.Notes...)
 		var reached []string
 		for k := range r.Reached {
